@@ -288,4 +288,4 @@ def replay(ctx, path):
         msg = pty_oracle(res, [tuple(c) for c in d['calls']])
         print(res['outs'], msg)
         return 1 if msg else 0
-    return 1
+    return None      # no dedicated replay for this kind of case: check.py re-runs the check with the recorded seed
